@@ -59,6 +59,19 @@ const (
 	StDiverged Status = "diverged" // replay prefix asked for a choice that does not exist
 )
 
+// pcInfo describes a call site of a point.
+type pcInfo struct {
+	pc       uintptr
+	shim     bool // the frame is a sync shim: the site is its caller
+	resolved bool // file/line/function filled in (only for sites, not for shim frames)
+	file     string
+	fn       string
+	line     int
+	inFiles  bool
+	waitResp bool
+	derived  bool
+}
+
 type parked struct {
 	g     *gor
 	kind  vhook.Kind
@@ -78,8 +91,8 @@ type gor struct {
 	spinPC     uintptr
 	spinN      int
 	spinning   bool
-	iterSites  map[uintptr]bool
-	bodySites  map[uintptr]bool
+	iterSites  []uintptr
+	bodySites  []uintptr
 }
 
 // Exec is one execution of a scenario. All exported methods are for the
@@ -93,7 +106,6 @@ type Exec struct {
 
 	mu       sync.Mutex
 	joinMu   sync.Mutex // the only synchronisation between client threads and the body that the race detector sees: thread end -> Run returns
-	gors     map[int64]*gor
 	parked   []*parked
 	wake     chan struct{}
 	active   bool
@@ -105,10 +117,13 @@ type Exec struct {
 	finished int
 	idle     time.Duration
 	files    map[string]bool
-	kinds    map[vhook.Kind]bool
-	pcFile   map[uintptr]string
-	pcSite   map[uintptr]string
-	pcShim   map[uintptr]bool
+	kinds    [32]bool
+	// Tables used on the goroutines of the program under test are plain arrays: map operations are
+	// instrumented by the runtime even in packages built without -race, and every (false) report about
+	// harness state costs the race detector memory it never gives back.
+	pcTab  [4096]*pcInfo
+	gorTab [8192]*gor
+	ngors  int
 
 	stateSigs map[uint64]struct{}
 	Blocked   []string // filled on hang/deadlock: where client threads are blocked
@@ -117,8 +132,7 @@ type Exec struct {
 }
 
 func newExec(cfg Config, prefix []int, sigs map[uint64]struct{}) *Exec {
-	x := &Exec{Cfg: cfg, prefix: prefix, gors: map[int64]*gor{}, stateSigs: sigs,
-		pcFile: map[uintptr]string{}, pcSite: map[uintptr]string{}, pcShim: map[uintptr]bool{}}
+	x := &Exec{Cfg: cfg, prefix: prefix, stateSigs: sigs}
 	if x.Cfg.Horizon == 0 {
 		x.Cfg.Horizon = 60 * time.Second
 	}
@@ -137,7 +151,6 @@ func newExec(cfg Config, prefix []int, sigs map[uint64]struct{}) *Exec {
 			x.files[f] = true
 		}
 	}
-	x.kinds = map[vhook.Kind]bool{}
 	if len(cfg.Kinds) == 0 {
 		for _, k := range []vhook.Kind{vhook.KLock, vhook.KRLock, vhook.KWGWait, vhook.KOnce, vhook.KGo, vhook.KUser, vhook.KEnv, vhook.KWake} {
 			x.kinds[k] = true
@@ -252,12 +265,47 @@ func (x *Exec) thread(name string, f func()) {
 
 //go:norace
 func (x *Exec) gorLocked(gid int64) *gor {
-	g := x.gors[gid]
-	if g == nil {
-		g = &gor{gid: gid, ord: len(x.gors)}
-		x.gors[gid] = g
+	n := len(x.gorTab)
+	for i := int(gid) % n; ; i = (i + 1) % n {
+		g := x.gorTab[i]
+		if g == nil {
+			if x.ngors >= n-1 {
+				panic("qx: more goroutines than the table holds")
+			}
+			g = &gor{gid: gid, ord: x.ngors}
+			x.ngors++
+			x.gorTab[i] = g
+			return g
+		}
+		if g.gid == gid {
+			return g
+		}
 	}
-	return g
+}
+
+// pcLocked returns the entry of pc, creating it.
+func (x *Exec) pcLocked(pc uintptr) *pcInfo {
+	n := len(x.pcTab)
+	for i := int(pc>>2) % n; ; i = (i + 1) % n {
+		pi := x.pcTab[i]
+		if pi == nil {
+			pi = &pcInfo{pc: pc}
+			x.pcTab[i] = pi
+			return pi
+		}
+		if pi.pc == pc {
+			return pi
+		}
+	}
+}
+
+func hasPC(l []uintptr, pc uintptr) bool {
+	for _, q := range l {
+		if q == pc {
+			return true
+		}
+	}
+	return false
 }
 
 //go:norace
@@ -299,28 +347,31 @@ func (x *Exec) point(k vhook.Kind, obj any) {
 		return
 	}
 	pc := pcs2[0]
-	if isShim, ok := x.pcShim[pc]; !ok {
+	pi := x.pcLocked(pc)
+	if !pi.resolved {
 		fr, _ := runtime.CallersFrames(pcs2[:1]).Next()
-		isShim = strings.Contains(fr.File, "/shim/v") || strings.Contains(fr.Function, "zzverif/v")
-		x.pcShim[pc] = isShim
-		if isShim {
-			pc = pcs2[1]
-		}
-	} else if isShim {
+		pi.resolved = true
+		pi.shim = strings.Contains(fr.File, "/shim/v") || strings.Contains(fr.Function, "zzverif/v")
+		pi.file, pi.line, pi.fn = filepath.Base(fr.File), fr.Line, fr.Function
+	}
+	if pi.shim {
 		pc = pcs2[1]
+		pi = x.pcLocked(pc)
+		if !pi.resolved {
+			fr, _ := runtime.CallersFrames([]uintptr{pc}).Next()
+			pi.resolved = true
+			pi.file, pi.line, pi.fn = filepath.Base(fr.File), fr.Line, fr.Function
+		}
+	}
+	if !pi.derived {
+		pi.derived = true
+		if i := strings.LastIndex(pi.fn, "/"); i >= 0 {
+			pi.fn = pi.fn[i+1:]
+		}
+		pi.waitResp = strings.Contains(pi.fn, "waitResponse")
+		pi.inFiles = x.files == nil || x.files[pi.file]
 	}
 	g := x.gorLocked(gid)
-	file, ok := x.pcFile[pc]
-	if !ok {
-		fr, _ := runtime.CallersFrames([]uintptr{pc}).Next()
-		file = filepath.Base(fr.File)
-		fn := fr.Function
-		if i := strings.LastIndex(fn, "/"); i >= 0 {
-			fn = fn[i+1:]
-		}
-		x.pcFile[pc] = file
-		x.pcSite[pc] = fmt.Sprintf("%s:%d(%s)", file, fr.Line, fn)
-	}
 	// A spin iteration: the goroutine re-locks the mutex it has just released, at
 	// a site known to spin (Conn.waitResponse), or for the 20th time in a row at
 	// the same site. Spinners wait until something else made progress.
@@ -331,7 +382,7 @@ func (x *Exec) point(k vhook.Kind, obj any) {
 		} else {
 			g.spinPC, g.spinN = pc, 1
 		}
-		yield = g.spinN >= 20 || strings.Contains(x.pcSite[pc], "waitResponse")
+		yield = g.spinN >= 20 || pi.waitResp
 	} else {
 		g.spinPC, g.spinN = 0, 0
 	}
@@ -339,24 +390,39 @@ func (x *Exec) point(k vhook.Kind, obj any) {
 	// last two yields), the points it passes are not progress for other spinners: two
 	// spinners would otherwise wake each other forever and starve everything else.
 	if yield {
-		g.bodySites, g.iterSites = g.iterSites, map[uintptr]bool{}
+		g.bodySites, g.iterSites = g.iterSites, make([]uintptr, 0, 8)
 		g.spinning = true
 	} else {
-		if g.iterSites == nil {
-			g.iterSites = map[uintptr]bool{}
+		if !hasPC(g.iterSites, pc) {
+			g.iterSites = append(g.iterSites, pc)
 		}
-		g.iterSites[pc] = true
-		if g.spinning && !g.bodySites[pc] {
+		if g.spinning && !hasPC(g.bodySites, pc) {
 			g.spinning = false
 		}
 	}
 	g.lastUnlock = nil
-	auto := !x.Cfg.Fine || k == vhook.KEnv || k == vhook.KWake || (x.files != nil && !x.files[file] && k != vhook.KUser)
+	auto := !x.Cfg.Fine || k == vhook.KEnv || k == vhook.KWake || (!pi.inFiles && k != vhook.KUser)
 	p := &parked{g: g, kind: k, obj: obj, pc: pc, yield: yield, prog: x.progress, auto: auto, ch: make(chan struct{})}
-	x.parked = append(x.parked, p)
+	x.addParkedLocked(p)
 	x.mu.Unlock()
 	x.Notify()
 	<-p.ch
+}
+
+// addParkedLocked and unparkLocked move elements by hand: append and copy are instrumented by the runtime.
+//
+//go:norace
+func (x *Exec) addParkedLocked(p *parked) {
+	n := len(x.parked)
+	if n == cap(x.parked) {
+		grown := make([]*parked, n, 2*n+8)
+		for i := 0; i < n; i++ {
+			grown[i] = x.parked[i]
+		}
+		x.parked = grown
+	}
+	x.parked = x.parked[:n+1]
+	x.parked[n] = p
 }
 
 type choice struct {
@@ -520,7 +586,12 @@ func (x *Exec) canRun(p *parked) bool {
 func (x *Exec) unparkLocked(p *parked) {
 	for i, q := range x.parked {
 		if q == p {
-			x.parked = append(x.parked[:i], x.parked[i+1:]...)
+			n := len(x.parked)
+			for j := i; j < n-1; j++ {
+				x.parked[j] = x.parked[j+1]
+			}
+			x.parked[n-1] = nil
+			x.parked = x.parked[:n-1]
 			break
 		}
 	}
@@ -559,7 +630,12 @@ func (x *Exec) tick() {
 func (x *Exec) site(pc uintptr) string {
 	x.mu.Lock()
 	defer x.mu.Unlock()
-	return x.pcSite[pc]
+	return x.siteLocked(pc)
+}
+
+func (x *Exec) siteLocked(pc uintptr) string {
+	pi := x.pcLocked(pc)
+	return fmt.Sprintf("%s:%d(%s)", pi.file, pi.line, pi.fn)
 }
 
 func (x *Exec) gname(g *gor) string {
@@ -611,7 +687,7 @@ func (x *Exec) ParkedSites() []string {
 	defer x.mu.Unlock()
 	var r []string
 	for _, p := range x.parked {
-		r = append(r, x.gname(p.g)+":"+p.kind.String()+"@"+x.pcSite[p.pc])
+		r = append(r, x.gname(p.g)+":"+p.kind.String()+"@"+x.siteLocked(p.pc))
 	}
 	sort.Strings(r)
 	return r
